@@ -521,7 +521,12 @@ const PP_OPS: &[&str] = &["+", "-", "*", "/", "=", "==", "<", ">", "<<", ">=", "
 const PP_LITS: &[&str] = &[
     "0", "1", "42", "0x1F", "017", "7u", "4294967295u", "1.5", "2.f", "1e3", "0.25h", "3.0L", "1.#INF", "\"str\"", "\"a b\"", "123456789", "0.1f", "1e-7",
 ];
-const PP_TRIVIA: &[&str] = &[" ", " ", " ", "  ", "\t", " /* c */ ", "/**/", " \\\n ", " /* \u{a3} */ ", ""];
+const PP_TRIVIA: &[&str] = &[" ", " ", " ", "  ", "\t", " /* c */ ", "/**/", " \\\n ", " /* \u{a3} */ "];
+/// operands of `##` whose paste is one token
+const PASTE_PAIRS: &[(&str, &str)] = &[
+    ("x", "y"), ("foo", "1"), ("_", "t9"), ("1", "2"), ("12", "34u"), ("0", "x1F"), ("1", "e5"), ("7", "."), ("1.", "5"),
+    ("2.5", "f"), ("+", "="), ("-", "-"), ("&", "&"), (":", ":"), ("=", "="), ("if", "x"), ("float", "4"), ("|", "="), ("1", "u"),
+];
 
 struct FileGen {
     /// macros visible so far: (name, parameter count or None)
@@ -537,6 +542,10 @@ fn pp_item(g: &FileGen, rng: &mut Rng, depth: u32, params: &[&str]) -> String {
         6 if !params.is_empty() => rng.pick(params).to_string(),
         7..=9 if !g.macros.is_empty() && depth < 3 => {
             let (name, arity) = rng.pick(&g.macros).clone();
+            if name.starts_with("CAT") {
+                let (a, b) = rng.pick(PASTE_PAIRS);
+                return format!("{}({}{}{})", name, a, rng.pick(&[",", ", ", " , "]), b);
+            }
             match arity {
                 None => name,
                 Some(n) => {
@@ -576,9 +585,9 @@ fn pp_line(g: &FileGen, rng: &mut Rng, params: &[&str], allow_paste: bool) -> St
         if i > 0 {
             s.push_str(*rng.pick(PP_TRIVIA));
         }
-        if allow_paste && !params.is_empty() && rng.chance(1, 5) {
+        if allow_paste && !params.is_empty() && rng.chance(1, 12) {
             // a ## b with a parameter on at least one side
-            let l = if rng.chance(2, 3) { rng.pick(params).to_string() } else { rng.pick(&["x", "1", "_", "0x", "<", "+", "1.", "e"]).to_string() };
+            let l = if rng.chance(2, 3) { rng.pick(params).to_string() } else { rng.pick(&["x", "1", "_", "q", "<", "+", "1.", "e"]).to_string() };
             let r = if rng.chance(2, 3) { rng.pick(params).to_string() } else { rng.pick(&["y", "2", "_z", "f", "=", "<", "5", "u"]).to_string() };
             s.push_str(&format!("{}{}##{}{}", l, rng.pick(&["", " "]), rng.pick(&["", " "]), r));
         } else {
@@ -645,6 +654,13 @@ fn gen_file(g: &mut FileGen, rng: &mut Rng, includes: &[&str], header: bool, his
                 }
                 out.push_str("#endif");
                 open_ifs -= 1;
+            }
+            9 if !g.macros.iter().any(|m| m.0.starts_with("CAT")) || rng.chance(1, 3) => {
+                g.counter += 1;
+                let name = format!("CAT{}", g.counter);
+                out.push_str(&format!("#define {}(a, b) a{}##{}b", name, rng.pick(&["", " "]), rng.pick(&["", " "])));
+                g.macros.push((name, Some(2)));
+                hist.add("pp.gen.define_paste");
             }
             7 => {
                 out.push_str(*rng.pick(&["", "// comment", "/* block \n comment */", "  ", "// \u{20ac} \\", "/* a */ // b"]));
